@@ -112,12 +112,16 @@ func (p *Core) execGenesisRestart(op sim.Op) {
 		w.Violate("C44", "state-not-preserved-by-export-import", sig, fmt.Sprintf("%s export/import at height %d: %d keys %s, e.g. %s", c.ID, c.Height, len(ex), sig, ex[0]))
 	}
 	knownLoss := false
+	knownLost := map[string][]string{}
 	for sig := range lost {
 		if w.Known != nil && w.Known.Matches("C44", sig) {
 			knownLoss = true
+			knownLost[sig] = lost[sig]
 		}
 	}
-	if knownLoss && len(w.Viol) == 0 && p.Opt.NoAlias && onlyAliasBookkeepingLost(lost) {
+	// (losses that are NOT listed never stop a world: where C44 is not the armed property their
+	// consequences are for the armed property's oracles to judge)
+	if knownLoss && len(w.Viol) == 0 && p.Opt.NoAlias && onlyAliasBookkeepingLost(knownLost) {
 		// the world never used v2-over-alias: only the (unused) alias bookkeeping of its v1
 		// channels is gone, everything the model relies on survived, so the run continues on the
 		// restarted chain
